@@ -37,6 +37,8 @@ type Opts struct {
 	CurrentPkg    bool // references into the container's own package
 	Unicode       bool // exotic runes in string literals
 	Behavioural   bool // restrict to shapes whose runtime behaviour the DI model predicts
+	TagHeavy      bool // many shared tags, priority ties, several decorators per tag
+	ScopeHeavy    bool // most services declare a scope
 }
 
 func All() Opts {
@@ -588,6 +590,11 @@ func (g *G) genServices() {
 			s.Args = g.genArgs(3, names, openTags, lbl+"-arg")
 		}
 		isStruct := info.kind == "Obj" || info.kind == "ObjV" || info.kind == "Val" || info.kind == "ValP"
+		if g.O.Behavioural && s.Value != nil && !strings.HasSuffix(*s.Value, "{}") && (info.kind == "Obj" || info.kind == "ValP") {
+			// a package-level pointer is shared by every container of the process: mutating
+			// it through fields or calls would make runs depend on each other
+			isStruct = false
+		}
 		if g.O.Fields && isStruct && g.chance(40, lbl+"-fields?") {
 			fnames := rapid.Permutation([]string{"FieldA", "FieldB", "fieldC"}).Draw(g.T, lbl+"-fperm")
 			k := 1 + g.draw(3, lbl+"-nf")
@@ -622,11 +629,15 @@ func (g *G) genServices() {
 				closed[f[len(f)-1]] = true
 			}
 		}
-		if g.O.Tags && g.chance(45, lbl+"-tags?") {
+		tagChance, tagPool := 45, tagNames
+		if g.O.TagHeavy {
+			tagChance, tagPool = 85, tagNames[:3]
+		}
+		if g.O.Tags && g.chance(tagChance, lbl+"-tags?") {
 			k := 1 + g.draw(2, lbl+"-nt")
 			seen := map[string]bool{}
 			for j := 0; j < k; j++ {
-				t := pickStr(g, tagNames, lbl+"-tag")
+				t := pickStr(g, tagPool, lbl+"-tag")
 				if seen[t] || closed[t] {
 					continue
 				}
@@ -635,6 +646,9 @@ func (g *G) genServices() {
 				switch g.draw(4, lbl+"-prio") {
 				case 1:
 					tag.Prio = rapid.SampledFrom([]int{-2147483648, -1, 1, 5, 5, 2147483647, 100}).Draw(g.T, lbl+"-p")
+					if g.O.TagHeavy {
+						tag.Prio = rapid.SampledFrom([]int{-1, -1, 1, 1, 5, -2147483648}).Draw(g.T, lbl+"-pt")
+					}
 					g.L.Add("tag:priority")
 				case 2:
 					tag.ObjForm = true
@@ -646,7 +660,11 @@ func (g *G) genServices() {
 				g.L.Add("tags")
 			}
 		}
-		if g.O.Scopes && g.chance(40, lbl+"-scope?") {
+		scopeChance := 40
+		if g.O.ScopeHeavy {
+			scopeChance = 75
+		}
+		if g.O.Scopes && g.chance(scopeChance, lbl+"-scope?") {
 			s.Scope = cfg.P([]string{"shared", "contextual", "non_shared"}[g.draw(3, lbl+"-scope")])
 			g.L.Add("scope:" + *s.Scope)
 		}
@@ -687,6 +705,9 @@ func (g *G) genServices() {
 	// decorators: deps only on services that precede every carrier of the tag
 	if g.O.Decorators && g.O.Tags {
 		nd := g.draw(3, "ndec")
+		if g.O.TagHeavy {
+			nd = 1 + g.draw(4, "ndec-heavy")
+		}
 		for i := 0; i < nd; i++ {
 			var tags []string
 			for t := range carriers {
